@@ -112,7 +112,8 @@ def _c03_mp(rep, tier, seed):
     recs, failures = mp.c11_pipeline(sub, tier, seed + 9, jit=False, scale=0.4, synthetic=True)
     for clause, case in failures:
         if case["mode"] != "solve" and clause in ("C11:none-iff-infeasible", "C11:optimum-differs-from-sequential",
-                                                  "C11:not-the-best-incumbent", "C11:none-iff-no-incumbent", "C11:raised"):
+                                                  "C11:not-the-best-incumbent", "C11:none-iff-no-incumbent", "C11:raised",
+                                                  "C11:worker-stream-is-not-solutions-then-one-completion-marker"):
             rep.fail(dict(case, clause="C03:distributed-" + clause[4:]),
                      f"C03:distributed-{clause[4:]} mode={case['mode']} arrival order={case['gets']} streams={case['streams']}")
     rep.add(states=sub.cov.get("states", 0), transitions=sub.cov.get("transitions", 0),
